@@ -271,6 +271,7 @@ PROPS = {
     ),
     "C03": dict(
         module="Hb.Props.C03",
+        more_modules=["Hb.Props.C03SetTable"],
         ties=[("scen", "mixed", 300, 10000), ("scen", "iter", 150, 4000), ("scen", "entry", 150, 4000),
               ("scen", "table", 120, 4000), ("scen", "set", 100, 3000), ("scen", "reserve", 100, 3000), ("scen", "clone", 80, 3000),
               ("scen", "par", 80, 2000, ["sse2"])],
@@ -290,7 +291,11 @@ PROPS = {
              "ledger on the real run (double drop, leak), allocator ledger (layout mismatch, leaked block at scenario end).",
         note="Trusted: Lean kernel, axioms propext/Classical.choice/Quot.sound; harness (drop/alloc instrumentation), hooks. The "
              "ledger theorems speak about calls that return; unwound calls are covered by C04 (at most once, leaks only after a "
-             "destructor panic).",
+             "destructor panic). HashTable and HashSet-pair histories: Hb.Props.C03SetTable (table_released_exactly_once, "
+             "set_pair_released_exactly_once: stored ++ dropped ++ handed back = moved in ++ clones created; allocator balanced after "
+             "every prefix with a FRAMED invariant that tolerates the other collection's live block; drop releases everything; "
+             "table histories with unwinding calls: lost only after a destructor panic or an unwound extract_if; the unwinding "
+             "ledger for set pairs is not proved). A forgotten drain is excluded (it leaks by design).",
     ),
     "C05": dict(
         module="Hb.Props.C05",
@@ -434,7 +439,8 @@ PROPS = {
              "try_reserve/shrink histories with full dump + allocator events compared with the model, direct capacity "
              "oracle on the real collection around every call, both back-ends; capacity arithmetic regenerated (T1).",
         note="Trusted: Lean kernel, axioms propext/Classical.choice/Quot.sound; harness, hooks, protocol. clear/drain keeping "
-             "the allocation: theorem in Hb.Proofs.ApiBulk when present, otherwise by tie + direct oracle only. HashSet/"
+             "the allocation, with_capacity(0), shrink in bytes, and all clauses in every reachable state of HashSet-pair / HashTable "
+             "histories: Hb.Props.C13SetTable (c08_*; re-checked by C13's check). HashSet/"
              "HashTable share RawTable::reserve/shrink_to; their wrappers (set.rs, table.rs) are tied by the set/table profiles "
              "and judged by the same direct capacity oracle.",
     ),
@@ -500,6 +506,7 @@ PROPS = {
     ),
     "C13": dict(
         module="Hb.Props.C13",
+        more_modules=["Hb.Props.C13SetTable"],
         ties=[("scen", "churn-long", 12, 600), ("scen", "churn-window", 16, 600), ("scen", "entry", 120, 4000), ("scen", "churn", 250, 8000), ("scen", "saturate", 100, 3000), ("t1", {})],
         backends=["sse2", "portable"],
         design="§7 C13",
@@ -513,7 +520,13 @@ PROPS = {
              "(a flipped in-place/grow decision shows at its first occurrence) + direct oracle of the bound on the real map "
              "after every call; reserve_rehash decision regenerated from source (T1).",
         note="Trusted: Lean kernel, axioms propext/Classical.choice/Quot.sound; harness, hooks, protocol. Termination on the real "
-             "code is observed only as completion of the runs (no timing-based verdicts).",
+             "code is observed only as completion of the runs (no timing-based verdicts). HashTable and HashSet-pair histories: "
+             "Hb.Props.C13SetTable (table_churn_bound / set_churn_bound: capacity <= max(14, 4*peak), buckets and bytes forms, every "
+             "environment, arbitrary caller-supplied hashes; for `|=` / `^=` the peak counts len(self)+len(rhs) at the call — a "
+             "boundary-only peak is false for `^=` by hand analysis, no machine-checked witness). The same file holds the C08 / C12 "
+             "statements in every reachable state of set-pair and table histories and the C08 clauses clear_keeps_allocation, "
+             "drain_keeps_allocation (normal return; a destructor panic inside Drain's drop or a forgotten drain leaves the unallocated "
+             "singleton and leaks the block), with_capacity_zero_allocates_nothing, shrink_never_enlarges (bytes).",
     ),
     "C19": dict(
         module="Hb.Props.C19",
